@@ -74,7 +74,7 @@ type c20Out struct {
 	MaxSelTimeout                                    float64
 	ElapsedMs                                        int
 	AuthtokSet                                       int
-	Overwait      int // selects entered after more than twice the timeout had been waited (signal storm cases)
+	Overwait                                         int // selects entered after more than twice the timeout had been waited (signal storm cases)
 	Finished                                         bool
 }
 
